@@ -670,8 +670,8 @@ func c09GettersAndBatches(c *fw.Ctx) {
 				cc := wr[start+i]
 				vals := c09Values(cc.Ch)
 				v := vals[(i+start)%len(vals)]
-				if reflect.DeepEqual(cc.Ch.Value, v.V) {
-					v = vals[(i+start+1)%len(vals)]
+				for d := 1; d < len(vals) && reflect.DeepEqual(cc.Ch.Value, v.V); d++ { // a write that changes the value (the alphabet holds one value in several spellings)
+					v = vals[(i+start+d)%len(vals)]
 				}
 				jv, _ := json.Marshal(v.V)
 				parts = append(parts, fmt.Sprintf(`{"aid":%d,"iid":%d,"value":%s}`, cc.Acc.ID, cc.Ch.ID, jv))
